@@ -157,6 +157,7 @@ const D16: BitDepth = BitDepth::IntegerSample { bits_per_sample: 16 };
 
 #[kani::proof]
 #[kani::unwind(10)]
+#[kani::stub(std::vec::Vec::reserve, no_reserve)]
 fn copy_from_grid_u8_i32() {
     let (x, y, inside) = outside_or_origin();
     let v: i32 = kani::any();
@@ -169,6 +170,7 @@ fn copy_from_grid_u8_i32() {
 }
 #[kani::proof]
 #[kani::unwind(18)]
+#[kani::stub(std::vec::Vec::reserve, no_reserve)]
 fn copy_from_grid_u8_i16() {
     let (x, y, inside) = outside_or_origin();
     let v: i16 = kani::any();
@@ -178,9 +180,10 @@ fn copy_from_grid_u8_i16() {
     assert!(out == e, "[C15] 8-bit integer samples (16-bit buffer) are copied exactly, clamped, 0 outside the grid");
     kani::cover!(inside && out == 200);
 }
-// NOT registered (copy_from_grid_u8_f32 / copy_from_grid_u16_f32): CBMC exceeds the 14 GB budget on the float fast path.
+// float fast path (fb2.copy_from_grid_u8_f32 / _u16_f32): tractable only with the `no_reserve` model below (see there).
 #[kani::proof]
 #[kani::unwind(10)]
+#[kani::stub(std::vec::Vec::reserve, no_reserve)]
 fn copy_from_grid_u8_f32() {
     let (x, y, inside) = outside_or_origin();
     let v = f32::from_bits(kani::any());
@@ -193,6 +196,7 @@ fn copy_from_grid_u8_f32() {
 }
 #[kani::proof]
 #[kani::unwind(10)]
+#[kani::stub(std::vec::Vec::reserve, no_reserve)]
 fn copy_from_grid_u16_i32() {
     let (x, y, inside) = outside_or_origin();
     let v: i32 = kani::any();
@@ -204,6 +208,7 @@ fn copy_from_grid_u16_i32() {
 }
 #[kani::proof]
 #[kani::unwind(18)]
+#[kani::stub(std::vec::Vec::reserve, no_reserve)]
 fn copy_from_grid_u16_i16() {
     let (x, y, inside) = outside_or_origin();
     let v: i16 = kani::any();
@@ -215,6 +220,7 @@ fn copy_from_grid_u16_i16() {
 }
 #[kani::proof]
 #[kani::unwind(10)]
+#[kani::stub(std::vec::Vec::reserve, no_reserve)]
 fn copy_from_grid_u16_f32() {
     let (x, y, inside) = outside_or_origin();
     let v = f32::from_bits(kani::any());
@@ -227,67 +233,14 @@ fn copy_from_grid_u16_f32() {
 }
 
 // ---------------------------------------------------------------------------------------------------
-// FrameBuffer::from_grids: output dimensions and coordinate map == spec_orientation.
-// NOT REGISTERED (from_grids_o1..8): CBMC needs > 12-14 GB inside the runner (RSS watchdog) although a run outside it closed
-// in 164-270 s; kept for a machine with more memory. Only from_grids_int (1x1) is an obligation.
-// Bounded: ONE float channel, a 3x2 grid (non-square, so that the transposing orientations are distinguishable) copied
-// whole (copy region == grid region == 3x2 at the origin); every sample value symbolic. Measured: two channels or
-// symbolic region / copy offsets exceed the 14 GB CBMC budget of the runner, so channel interleaving is covered only by
-// from_grids_int (1x1, two channels) and the `left - region.left` offset arithmetic of from_grids is NOT covered.
+// FrameBuffer::from_grids. The coordinate map, the per-channel region offsets and the interleaving are under contract
+// in the fb2 section below (from_grids_regions_o1..8, from_grids_mixed_o1..8); from_grids_int is the 1x1 case over all
+// orientations at once.
 // ---------------------------------------------------------------------------------------------------
-const CW: usize = 3;
-const CH: usize = 2;
-fn from_grids_for(o: u32) {
-    let mut g0 = jxl_grid::AlignedGrid::<f32>::with_alloc_tracker(CW, CH, None).unwrap();
-    let vals0: [f32; CW * CH] = kani::any();
-    let mut i = 0;
-    while i < CW * CH {
-        kani::assume(!vals0[i].is_nan());
-        *g0.get_mut(i % CW, i / CW) = vals0[i];
-        i += 1;
-    }
-    let b0 = ImageBuffer::F32(g0);
-    let depth = [D8];
-    let regions = [Region { left: 0, top: 0, width: CW as u32, height: CH as u32 }];
-    let copy = Region { left: 0, top: 0, width: CW as u32, height: CH as u32 };
-    let fb = FrameBuffer::from_grids(&[&b0], &depth, &regions, copy, o);
-
-    let (w, h) = (CW as i64, CH as i64);
-    let (ow, oh) = spec_oriented_dims(o, w, h);
-    assert!(fb.width() as i64 == ow && fb.height() as i64 == oh && fb.channels() == 1, "[C15] from_grids: output dimensions are the oriented dimensions");
-    assert!(fb.buf().len() as i64 == ow * oh, "[C15] from_grids: buffer length is width*height*channels");
-    // one symbolic stored position
-    let (x, y): (usize, usize) = (kani::any(), kani::any());
-    kani::assume(x < CW && y < CH);
-    let (dx, dy) = spec_orientation(o, w, h, x as i64, y as i64);
-    let idx = dx + dy * ow;
-    assert!(0 <= idx && idx < ow * oh);
-    let got = fb.buf()[idx as usize];
-    assert!(got.to_bits() == vals0[y * CW + x].to_bits(), "[C15] from_grids: stored sample (x,y) lands at spec_orientation(x,y) of the output buffer");
-    kani::cover!(x == 2 && y == 1 && got != 0.0);
-    kani::cover!(x == 0 && y == 1);
-}
-macro_rules! fg {
-    ($name:ident, $o:expr) => {
-        #[kani::proof]
-        #[kani::unwind(18)]
-        fn $name() {
-            from_grids_for($o);
-        }
-    };
-}
-fg!(from_grids_o1, 1);
-fg!(from_grids_o2, 2);
-fg!(from_grids_o3, 3);
-fg!(from_grids_o4, 4);
-fg!(from_grids_o5, 5);
-fg!(from_grids_o6, 6);
-fg!(from_grids_o7, 7);
-fg!(from_grids_o8, 8);
-
 /// integer channels go through BitDepth::parse_integer_sample with the channel's own bit depth (1x1 copy region)
 #[kani::proof]
 #[kani::unwind(18)]
+#[kani::stub(std::vec::Vec::reserve, no_reserve)]
 fn from_grids_int() {
     let (v0, v1): (i32, i16) = (kani::any(), kani::any());
     let b0 = ImageBuffer::I32(grid1(v0));
@@ -309,4 +262,362 @@ fn canary() {
     let mut out = 0u8;
     out.copy_from_f32(v);
     assert!(out != 77, "canary: must fail");
+}
+
+// ---------------------------------------------------------------------------------------------------
+// fb2.*: FrameBuffer::from_grids with SEVERAL channels whose grids cover DIFFERENT regions (C15).
+// ---------------------------------------------------------------------------------------------------
+/// `AlignedGrid::with_alloc_tracker` ends with `buf.resize_with(len + offset, ..)` where `offset` (< 32 / size_of::<S>())
+/// is derived from the ADDRESS of the buffer and is therefore symbolic for CBMC's symbolic execution, although the call
+/// always truncates (the Vec was created with len + 31 / size_of::<S>() elements). CBMC nevertheless explores the
+/// "grow" branch (Vec::reserve -> realloc -> copy of a symbolically sized object), which is what made every harness
+/// that touches the contents of an AlignedGrid need 12-30 GB. This model replaces `Vec::reserve` for the harnesses
+/// below: it ASSERTS that it is never reached (a failing untagged assert in this file makes the obligation UNDECIDED,
+/// never held), so what is verified is exactly the real code. Measured: 203 s / 16.6 GB -> 0.9 s / 0.3 GB for writing
+/// and reading back a 3x2 grid. Needs `#![feature(allocator_api)]` (crate_attrs in registry.d/41_fb2.py).
+fn no_reserve<T, A: core::alloc::Allocator>(_v: &mut Vec<T, A>, _additional: usize) {
+    assert!(false, "harness model: no Vec growth is reachable");
+    kani::assume(false);
+}
+
+const W: usize = 3; // copy region (stored orientation): non-square, so that all eight maps and the w/h swap are distinguishable
+const H: usize = 2;
+const G0W: usize = 4; // grid of channel 0
+const G0H: usize = 3;
+const G1W: usize = 3; // grid of channel 1
+const G1H: usize = 2;
+
+fn grid_f32<const N: usize>(w: usize, h: usize, vals: &[f32; N]) -> ImageBuffer {
+    let mut g = jxl_grid::AlignedGrid::<f32>::with_alloc_tracker(w, h, None).unwrap();
+    let b = g.buf_mut();
+    let mut i = 0;
+    while i < N {
+        b[i] = vals[i];
+        i += 1;
+    }
+    ImageBuffer::F32(g)
+}
+
+/// spec: sample of a channel at stored position (x, y) of the copy region, where the channel's grid (gw x gh, row-major
+/// `vals`) covers the region whose origin lies (dx, dy) to the upper left of the copy region's origin; 0 outside
+fn spec_channel_sample(vals: &[f32], gw: i64, gh: i64, dx: i64, dy: i64, x: i64, y: i64) -> f32 {
+    let (gx, gy) = (x + dx, y + dy);
+    if spec_inside(gw, gh, gx, gy) { vals[(gy * gw + gx) as usize] } else { 0.0 }
+}
+
+/// the stored position displayed at (xx, yy): inverse of spec_orientation by search (spec_orientation is the ONLY map)
+fn spec_stored_position(o: u32, w: i64, h: i64, xx: i64, yy: i64) -> (i64, i64) {
+    let mut st = (-1i64, -1i64);
+    let mut y = 0;
+    while y < h {
+        let mut x = 0;
+        while x < w {
+            if spec_orientation(o, w, h, x, y) == (xx, yy) {
+                st = (x, y);
+            }
+            x += 1;
+        }
+        y += 1;
+    }
+    st
+}
+
+/// frame coordinates: |x0|, |y0| <= 2^29 + 9344 and frame / image size <= 2^30 (see ru.image_region_to_frame), so every
+/// region origin handed to from_grids (Render::image_all_channels / image_planar, lib.rs:1150-1198: the regions of
+/// ImageWithRegion and target_frame_region) is far inside +-2^30 and `left - region.left` cannot overflow
+const ORIGIN_MAX: i32 = 1 << 30;
+
+fn from_grids_regions_for(o: u32) {
+    let v0: [f32; G0W * G0H] = kani::any();
+    let v1: [f32; G1W * G1H] = kani::any();
+    let b0 = grid_f32(G0W, G0H, &v0);
+    let b1 = grid_f32(G1W, G1H, &v1);
+    let (left, top): (i32, i32) = (kani::any(), kani::any());
+    kani::assume(-ORIGIN_MAX <= left && left <= ORIGIN_MAX && -ORIGIN_MAX <= top && top <= ORIGIN_MAX);
+    // each grid region starts (dx, dy) to the upper left of the copy region (negative: inside it), independently per channel
+    let (dx0, dy0, dx1, dy1): (i32, i32, i32, i32) = (kani::any(), kani::any(), kani::any(), kani::any());
+    kani::assume(-2 <= dx0 && dx0 <= 2 && -2 <= dy0 && dy0 <= 2 && -2 <= dx1 && dx1 <= 2 && -2 <= dy1 && dy1 <= 2);
+    let copy = Region { left, top, width: W as u32, height: H as u32 };
+    // grid dimensions == region dimensions: invariant of ImageWithRegion (buffer[i] is allocated with regions[i]'s size)
+    let r0 = Region { left: left - dx0, top: top - dy0, width: G0W as u32, height: G0H as u32 };
+    let r1 = Region { left: left - dx1, top: top - dy1, width: G1W as u32, height: G1H as u32 };
+    let fb = FrameBuffer::from_grids(&[&b0, &b1], &[D8, D8], &[r0, r1], copy, o);
+
+    let (w, h) = (W as i64, H as i64);
+    let (ow, oh) = spec_oriented_dims(o, w, h);
+    assert!(fb.width() as i64 == ow && fb.height() as i64 == oh, "[C15] from_grids: output dimensions are the oriented dimensions of the copy region");
+    assert!(fb.channels() == 2 && fb.buf().len() as i64 == ow * oh * 2, "[C15] from_grids: one interleaved sample per channel and pixel");
+    // ONE symbolic output sample (X, Y, c)
+    let (xx, yy, c): (i64, i64, usize) = (kani::any(), kani::any(), kani::any());
+    kani::assume(0 <= xx && xx < ow && 0 <= yy && yy < oh && c < 2);
+    let (x, y) = spec_stored_position(o, w, h, xx, yy);
+    assert!(spec_inside(w, h, x, y)); // spec_orientation is onto the displayed rectangle
+    let got = fb.buf()[((yy * ow + xx) * 2) as usize + c];
+    let e = if c == 0 {
+        spec_channel_sample(&v0, G0W as i64, G0H as i64, dx0 as i64, dy0 as i64, x, y)
+    } else {
+        spec_channel_sample(&v1, G1W as i64, G1H as i64, dx1 as i64, dy1 as i64, x, y)
+    };
+    assert!(got.to_bits() == e.to_bits(), "[C15] from_grids: output sample (X,Y,c) is channel c's grid sample at the stored position spec_orientation maps to (X,Y), offset by THAT channel's grid region; 0 outside the grid");
+    kani::cover!(c == 0 && xx == ow - 1 && yy == oh - 1 && dx0 == 1 && dy0 == 1 && dx1 == 0 && dy1 == 0 && got.to_bits() != 0);
+    kani::cover!(c == 1 && xx == 0 && yy == oh - 1 && dx0 == 1 && dx1 == 0 && got.to_bits() != 0);
+    kani::cover!(c == 1 && dx1 == -2 && got.to_bits() != 0);
+    kani::cover!(c == 0 && dy0 == 2 && dx0 == -1 && got.to_bits() != 0);
+    std::mem::forget(fb);
+    std::mem::forget(b0);
+    std::mem::forget(b1);
+}
+macro_rules! fgr {
+    ($name:ident, $o:expr) => {
+        #[kani::proof]
+        #[kani::unwind(13)]
+        #[kani::stub(std::vec::Vec::reserve, no_reserve)]
+        fn $name() {
+            from_grids_regions_for($o);
+        }
+    };
+}
+fgr!(from_grids_regions_o1, 1);
+fgr!(from_grids_regions_o2, 2);
+fgr!(from_grids_regions_o3, 3);
+fgr!(from_grids_regions_o4, 4);
+fgr!(from_grids_regions_o5, 5);
+fgr!(from_grids_regions_o6, 6);
+fgr!(from_grids_regions_o7, 7);
+fgr!(from_grids_regions_o8, 8);
+
+// ---------------------------------------------------------------------------------------------------
+// from_grids, three channels of the three buffer types (i32 / i16 / f32), each with its own bit depth and its own grid
+// region: position map, interleaving stride 3 and per-channel sample scaling together.
+// ---------------------------------------------------------------------------------------------------
+fn grid_of<S: Default + Clone + Copy, const N: usize>(w: usize, h: usize, vals: &[S; N]) -> jxl_grid::AlignedGrid<S> {
+    let mut g = jxl_grid::AlignedGrid::<S>::with_alloc_tracker(w, h, None).unwrap();
+    let b = g.buf_mut();
+    let mut i = 0;
+    while i < N {
+        b[i] = vals[i];
+        i += 1;
+    }
+    g
+}
+
+fn from_grids_mixed_for(o: u32) {
+    let v0: [i32; G0W * G0H] = kani::any();
+    let v1: [i16; G1W * G1H] = kani::any();
+    let v2: [f32; G1W * G1H] = kani::any();
+    let b0 = ImageBuffer::I32(grid_of(G0W, G0H, &v0));
+    let b1 = ImageBuffer::I16(grid_of(G1W, G1H, &v1));
+    let b2 = ImageBuffer::F32(grid_of(G1W, G1H, &v2));
+    let (left, top): (i32, i32) = (kani::any(), kani::any());
+    kani::assume(-ORIGIN_MAX <= left && left <= ORIGIN_MAX && -ORIGIN_MAX <= top && top <= ORIGIN_MAX);
+    let copy = Region { left, top, width: W as u32, height: H as u32 };
+    // channel 0: grid padded by one column / row on the left / top; channel 1: exactly the copy region;
+    // channel 2: starts one column to the RIGHT of the copy region's origin (its first column reads 0)
+    let r0 = Region { left: left - 1, top: top - 1, width: G0W as u32, height: G0H as u32 };
+    let r1 = copy;
+    let r2 = Region { left: left + 1, top, width: G1W as u32, height: G1H as u32 };
+    let fb = FrameBuffer::from_grids(&[&b0, &b1, &b2], &[D16, D8, D8], &[r0, r1, r2], copy, o);
+
+    let (w, h) = (W as i64, H as i64);
+    let (ow, oh) = spec_oriented_dims(o, w, h);
+    assert!(fb.width() as i64 == ow && fb.height() as i64 == oh, "[C15] from_grids: output dimensions are the oriented dimensions of the copy region");
+    assert!(fb.channels() == 3 && fb.buf().len() as i64 == ow * oh * 3, "[C15] from_grids: one interleaved sample per channel and pixel");
+    let (xx, yy, c): (i64, i64, usize) = (kani::any(), kani::any(), kani::any());
+    kani::assume(0 <= xx && xx < ow && 0 <= yy && yy < oh && c < 3);
+    let (x, y) = spec_stored_position(o, w, h, xx, yy);
+    assert!(spec_inside(w, h, x, y));
+    let got = fb.buf()[((yy * ow + xx) * 3) as usize + c];
+    let e = if c == 0 {
+        D16.parse_integer_sample(v0[((y + 1) * G0W as i64 + x + 1) as usize])
+    } else if c == 1 {
+        D8.parse_integer_sample(v1[(y * G1W as i64 + x) as usize] as i32)
+    } else if x >= 1 {
+        v2[(y * G1W as i64 + x - 1) as usize]
+    } else {
+        0.0
+    };
+    assert!(got.to_bits() == e.to_bits(), "[C15] from_grids: output sample (X,Y,c) is channel c's grid sample (integer samples scaled by the channel's OWN bit depth) at the stored position, offset by the channel's OWN grid region; 0 outside the grid");
+    kani::cover!(c == 0 && got == 1.0);
+    kani::cover!(c == 1 && got == 1.0 && xx == ow - 1);
+    kani::cover!(c == 2 && x == 0);
+    kani::cover!(c == 2 && x == 2 && got.to_bits() != 0);
+    std::mem::forget(fb);
+    std::mem::forget(b0);
+    std::mem::forget(b1);
+    std::mem::forget(b2);
+}
+macro_rules! fgm {
+    ($name:ident, $o:expr) => {
+        #[kani::proof]
+        #[kani::unwind(13)]
+        #[kani::stub(std::vec::Vec::reserve, no_reserve)]
+        fn $name() {
+            from_grids_mixed_for($o);
+        }
+    };
+}
+fgm!(from_grids_mixed_o1, 1);
+fgm!(from_grids_mixed_o2, 2);
+fgm!(from_grids_mixed_o3, 3);
+fgm!(from_grids_mixed_o4, 4);
+fgm!(from_grids_mixed_o5, 5);
+fgm!(from_grids_mixed_o6, 6);
+fgm!(from_grids_mixed_o7, 7);
+fgm!(from_grids_mixed_o8, 8);
+
+// ---------------------------------------------------------------------------------------------------
+// ImageStream::write_to_buffer: the incremental stream, written in two pieces (split point concrete per harness: mid-pixel,
+// pixel-aligned, row-aligned, 0 and everything; a symbolic split makes the three nested loops unwind 14^3 times), produces exactly the
+// samples of FrameBuffer::from_grids (same grids, same per-channel regions), and both equal the specification.
+// The stream is built field by field as ImageStream::from_render does (fb.rs:185-286): displayed width/height (swapped
+// for orientation >= 5), start_offset_xy[c] = (left - region_c.left, top - region_c.top); no spot colours.
+// ---------------------------------------------------------------------------------------------------
+const NS: usize = W * H * 2;
+
+fn stream_for(o: u32, k: usize) {
+    let v0: [f32; G0W * G0H] = kani::any();
+    let v1: [f32; G1W * G1H] = kani::any();
+    let b0 = grid_f32(G0W, G0H, &v0);
+    let b1 = grid_f32(G1W, G1H, &v1);
+    let (left, top): (i32, i32) = (kani::any(), kani::any());
+    kani::assume(-ORIGIN_MAX <= left && left <= ORIGIN_MAX && -ORIGIN_MAX <= top && top <= ORIGIN_MAX);
+    let (dx0, dy0, dx1, dy1): (i32, i32, i32, i32) = (kani::any(), kani::any(), kani::any(), kani::any());
+    kani::assume(-2 <= dx0 && dx0 <= 2 && -2 <= dy0 && dy0 <= 2 && -2 <= dx1 && dx1 <= 2 && -2 <= dy1 && dy1 <= 2);
+    let copy = Region { left, top, width: W as u32, height: H as u32 };
+    let r0 = Region { left: left - dx0, top: top - dy0, width: G0W as u32, height: G0H as u32 };
+    let r1 = Region { left: left - dx1, top: top - dy1, width: G1W as u32, height: G1H as u32 };
+    let fb = FrameBuffer::from_grids(&[&b0, &b1], &[D8, D8], &[r0, r1], copy, o);
+
+    let (w, h) = (W as i64, H as i64);
+    let (ow, oh) = spec_oriented_dims(o, w, h);
+    let mut s = ImageStream {
+        orientation: o,
+        width: ow as u32,
+        height: oh as u32,
+        grids: vec![&b0, &b1],
+        start_offset_xy: vec![(left - r0.left, top - r0.top), (left - r1.left, top - r1.top)],
+        bit_depth: vec![D8, D8],
+        spot_colors: Vec::new(),
+        y: 0,
+        x: 0,
+        c: 0,
+    };
+    assert!(s.width() as usize == fb.width() && s.height() as usize == fb.height() && s.channels() as usize == fb.channels(),
+        "[C15] stream and interleaved buffer report the same dimensions");
+    const SENTINEL: u32 = 0x7fc0_1234; // a NaN payload no copy produces by accident
+    let mut out = [f32::from_bits(SENTINEL); NS + 1];
+    assert!(k <= NS);
+    let n1 = s.write_to_buffer(&mut out[..k]);
+    let n2 = s.write_to_buffer(&mut out[k..NS]);
+    let n3 = s.write_to_buffer(&mut out[NS..]);
+    assert!(n1 == k && n2 == NS - k && n3 == 0, "[C15] the stream delivers width*height*channels samples in total, as many per call as the buffer takes, then nothing");
+    assert!(out[NS].to_bits() == SENTINEL, "[C15] an exhausted stream writes nothing");
+    let i: usize = kani::any();
+    kani::assume(i < NS);
+    assert!(out[i].to_bits() == fb.buf()[i].to_bits(), "[C15] sample i of the incremental stream == sample i of FrameBuffer::from_grids");
+    // and directly against the specification
+    let (c, px) = (i % 2, (i / 2) as i64);
+    let (xx, yy) = (px % ow, px / ow);
+    let (x, y) = spec_stored_position(o, w, h, xx, yy);
+    assert!(spec_inside(w, h, x, y));
+    let e = if c == 0 {
+        spec_channel_sample(&v0, G0W as i64, G0H as i64, dx0 as i64, dy0 as i64, x, y)
+    } else {
+        spec_channel_sample(&v1, G1W as i64, G1H as i64, dx1 as i64, dy1 as i64, x, y)
+    };
+    assert!(out[i].to_bits() == e.to_bits(), "[C15] stream sample (X,Y,c) is channel c's grid sample at the stored position spec_orientation maps to (X,Y), offset by that channel's grid region; 0 outside");
+    kani::cover!(i == 7 && out[i].to_bits() != 0 && dx0 == 1 && dx1 == 0);
+    kani::cover!(i == NS - 1 && out[i].to_bits() != 0 && dx0 == 1 && dx1 == 0);
+    kani::cover!(c == 1 && dx1 == 2 && x == 2); // outside the grid
+    kani::cover!(i == 0 && out[i].to_bits() != 0);
+    std::mem::forget(s);
+    std::mem::forget(fb);
+    std::mem::forget(b0);
+    std::mem::forget(b1);
+}
+macro_rules! fgs {
+    ($name:ident, $o:expr, $k:expr) => {
+        #[kani::proof]
+        #[kani::unwind(14)]
+        #[kani::stub(std::vec::Vec::reserve, no_reserve)]
+        fn $name() {
+            stream_for($o, $k);
+        }
+    };
+}
+fgs!(stream_matches_from_grids_o1, 1, 5);
+fgs!(stream_matches_from_grids_o2, 2, 12);
+fgs!(stream_matches_from_grids_o3, 3, 0);
+fgs!(stream_matches_from_grids_o4, 4, 7);
+fgs!(stream_matches_from_grids_o5, 5, 3);
+fgs!(stream_matches_from_grids_o6, 6, 6);
+fgs!(stream_matches_from_grids_o7, 7, 9);
+fgs!(stream_matches_from_grids_o8, 8, 1);
+
+// integer streams: every u8 / u16 sample of the stream is the correctly rounded and clamped float sample of from_grids
+// (rounding itself: fb.copy_from_f32_u8 / _u16). Channel 0 is declared 8-bit, channel 1 16-bit, so for either sample type
+// one channel takes the same-depth fast path of copy_from_grid and the other the generic path.
+fn stream_int_for<S: FrameBufferSample + PartialEq + Copy>(o: u32, k: usize, sentinel: S) {
+    let v0: [f32; G0W * G0H] = kani::any();
+    let v1: [f32; G1W * G1H] = kani::any();
+    let b0 = grid_f32(G0W, G0H, &v0);
+    let b1 = grid_f32(G1W, G1H, &v1);
+    let (left, top): (i32, i32) = (kani::any(), kani::any());
+    kani::assume(-ORIGIN_MAX <= left && left <= ORIGIN_MAX && -ORIGIN_MAX <= top && top <= ORIGIN_MAX);
+    let copy = Region { left, top, width: W as u32, height: H as u32 };
+    let r0 = Region { left: left - 1, top: top - 1, width: G0W as u32, height: G0H as u32 };
+    let r1 = Region { left: left + 1, top, width: G1W as u32, height: G1H as u32 };
+    let fb = FrameBuffer::from_grids(&[&b0, &b1], &[D8, D16], &[r0, r1], copy, o);
+    let (ow, oh) = spec_oriented_dims(o, W as i64, H as i64);
+    let mut s = ImageStream {
+        orientation: o,
+        width: ow as u32,
+        height: oh as u32,
+        grids: vec![&b0, &b1],
+        start_offset_xy: vec![(left - r0.left, top - r0.top), (left - r1.left, top - r1.top)],
+        bit_depth: vec![D8, D16],
+        spot_colors: Vec::new(),
+        y: 0,
+        x: 0,
+        c: 0,
+    };
+    let mut out = [sentinel; NS];
+    assert!(k <= NS);
+    let n1 = s.write_to_buffer(&mut out[..k]);
+    let n2 = s.write_to_buffer(&mut out[k..]);
+    assert!(n1 == k && n2 == NS - k, "[C15] the stream delivers width*height*channels samples in total");
+    // every sample, one assertion each (concrete index: both sides are then the same rounding of the same grid read, which the
+    // solver closes structurally; ONE symbolic index needs a 12-way multiplexer in front of a float multiplier: u16 > 1200 s)
+    let mut i = 0;
+    while i < NS {
+        let mut e = S::default();
+        e.copy_from_f32(fb.buf()[i]);
+        assert!(out[i] == e, "[C15] integer stream sample i == the float sample i of from_grids, rounded and clamped (copy_from_f32)");
+        i += 1;
+    }
+    let (mut seen0, mut seen1) = (false, false);
+    let mut i = 0;
+    while i < NS {
+        if out[i] != sentinel && out[i] != S::default() {
+            if i % 2 == 0 { seen0 = true } else { seen1 = true }
+        }
+        i += 1;
+    }
+    kani::cover!(seen0 && seen1);
+    std::mem::forget(s);
+    std::mem::forget(fb);
+    std::mem::forget(b0);
+    std::mem::forget(b1);
+}
+#[kani::proof]
+#[kani::unwind(14)]
+#[kani::stub(std::vec::Vec::reserve, no_reserve)]
+fn stream_u8_matches_from_grids_o7() {
+    stream_int_for::<u8>(7, 5, 0xAA);
+}
+#[kani::proof]
+#[kani::unwind(14)]
+#[kani::stub(std::vec::Vec::reserve, no_reserve)]
+fn stream_u16_matches_from_grids_o4() {
+    stream_int_for::<u16>(4, 8, 0xAAAA);
 }
